@@ -319,8 +319,11 @@ def given_law(name, strategy, body, examples, shards=None, doc="", max_shrinks_q
         try:
             test()
         except hypothesis.errors.HypothesisException as e:
-            if "case" in last and isinstance(e, hypothesis.errors.Flaky):
-                raise HarnessError("flaky: %s" % e)
+            if "case" in last and isinstance(e, hypothesis.errors.Flaky) and isinstance(last["exc"], (Violation, AssertionError)):
+                # the body is a pure function of the case; if the same case held once and failed once in this process,
+                # the code under test remembers earlier calls.  Report the recorded failure.
+                v = Violation("%s [outcome for the same case changed between executions in one process: the code under test keeps state between calls]" % last["exc"])
+                raise Failure(last["case"], v, last["exc"].__traceback__)
             raise HarnessError("hypothesis: %s: %s" % (type(e).__name__, e))
         except BaseException as e:  # noqa: B902
             if "case" in last:
